@@ -13,6 +13,8 @@
 //   in_move_block(ts, a)  at some depth: `move { B }` or `move || { B }` where B contains atom a and the word `start`
 //                         before it
 //   awaited_future(ts)    at some depth: `. in_future ( .. ) . await`
+//   hasstr(ts, v)         a string literal with value v occurs in ts, at any depth
+//   has_sub(ts, sub)      the stream sub was spliced into ts as a whole (`.. + sub`), at any depth
 pub uninterp spec fn cnt(ts: Seq<Tok>, a: int) -> int;
 pub uninterp spec fn tcnt(t: Tok, a: int) -> int;
 pub uninterp spec fn hasw(ts: Seq<Tok>, wd: Seq<char>) -> bool;
@@ -25,6 +27,9 @@ pub uninterp spec fn has_call(ts: Seq<Tok>, p: Seq<Tok>, args: Seq<Seq<Tok>>) ->
 pub uninterp spec fn has_mcall(ts: Seq<Tok>, m: Seq<char>) -> bool;
 pub uninterp spec fn in_move_block(ts: Seq<Tok>, a: int) -> bool;
 pub uninterp spec fn awaited_future(ts: Seq<Tok>) -> bool;
+
+pub uninterp spec fn hasstr(ts: Seq<Tok>, v: Seq<char>) -> bool;
+pub uninterp spec fn has_sub(ts: Seq<Tok>, sub: Seq<Tok>) -> bool;
 
 pub open spec fn atom(a: int) -> Seq<Tok> { e().push(Tok::In(a)) }
 pub open spec fn path5(a: Tok, b: Tok, c: Tok, d: Tok, f: Tok) -> Seq<Tok> { e().push(a).push(b).push(c).push(d).push(f) }
@@ -131,7 +136,25 @@ pub broadcast proof fn ax_await_push(s: Seq<Tok>, t: Tok)
 pub broadcast proof fn ax_await_add(s1: Seq<Tok>, s2: Seq<Tok>)
     ensures (awaited_future(s1) || awaited_future(s2)) ==> #[trigger] awaited_future(s1 + s2) {}
 
+// ---- hasstr ----
+#[verifier::external_body]
+pub broadcast proof fn ax_hasstr_push(s: Seq<Tok>, t: Tok, v: Seq<char>)
+    ensures (hasstr(s, v) || t == Tok::Str(v) || (t is G && hasstr(t->G_1, v))) ==> #[trigger] hasstr(s.push(t), v) {}
+#[verifier::external_body]
+pub broadcast proof fn ax_hasstr_add(s1: Seq<Tok>, s2: Seq<Tok>, v: Seq<char>)
+    ensures (hasstr(s1, v) || hasstr(s2, v)) ==> #[trigger] hasstr(s1 + s2, v) {}
+// ---- has_sub ----
+#[verifier::external_body]
+pub broadcast proof fn ax_sub_self(s: Seq<Tok>) ensures #[trigger] has_sub(s, s) {}
+#[verifier::external_body]
+pub broadcast proof fn ax_sub_push(s: Seq<Tok>, t: Tok, sub: Seq<Tok>)
+    ensures (has_sub(s, sub) || (t is G && has_sub(t->G_1, sub))) ==> #[trigger] has_sub(s.push(t), sub) {}
+#[verifier::external_body]
+pub broadcast proof fn ax_sub_add(s1: Seq<Tok>, s2: Seq<Tok>, sub: Seq<Tok>)
+    ensures (has_sub(s1, sub) || has_sub(s2, sub)) ==> #[trigger] has_sub(s1 + s2, sub) {}
+
 pub broadcast group facts {
+    ax_hasstr_push, ax_hasstr_add, ax_sub_self, ax_sub_push, ax_sub_add,
     ax_cnt_empty, ax_cnt_push, ax_cnt_add, ax_cnt_nonneg, ax_tcnt,
     ax_hasw_push, ax_hasw_add, ax_thasw,
     ax_abefore_push, ax_abefore_add, ax_wbefore_push, ax_wbefore_add,
